@@ -56,6 +56,14 @@ func ruleSizedFamilies(c *core.Ctx, poss []string, floor int) {
 			sp := &fam.Spec{Kind: "integer", Kw: f.kws, EMin: f.emin, EMax: f.emax, IntBounds: true}
 			mb := member{name: "sized integer " + pos + " " + sp.String(), cfg: cfg, root: place(sp, pos)}
 			runMemberOpt(c, mb, rules, 4000, true, checkRoot)
+			// the same form with FRACTIONAL limits (a limit of 254.6 admits 254, one of -0.5 admits 0): the cells of the limit are
+			// then cut where the smallest / largest admitted integer changes
+			has := func(k string) bool { return len(f.kws) > 0 && (f.kws[0] == k || f.kws[len(f.kws)-1] == k) }
+			if (f.emin == "num" && has("minimum")) || (f.emax == "num" && has("maximum")) {
+				continue
+			}
+			fs := &fam.Spec{Kind: "integer", Kw: f.kws, EMin: f.emin, EMax: f.emax, FracBounds: true}
+			runMemberOpt(c, member{name: "sized integer " + pos + " " + fs.String(), cfg: cfg, root: place(fs, pos)}, rules, 8000, true, checkRoot)
 		}
 	}
 	if floor <= 30 {
